@@ -301,6 +301,7 @@ Proof.
   - eapply chain_receive; eassumption.
   - eapply chain_retention; [exact HC|exact Hok|exact H].
   - eapply chain_import; eassumption.
+  - inversion H; subst. exact HC.
 Qed.
 
 Lemma chain_init lock : Chain (init lock).
